@@ -23,6 +23,8 @@ func main
 // ---------------------------------------------------------------------------------------------
 macro StrFlagIs(f cli.Flag, name string, def string, env string) bool := typeis(f, "*cli.StringFlag") && payload(f) != 0 && ptr(cli.StringFlag, payload(f)).Name == name && ptr(cli.StringFlag, payload(f)).Value == def && len(ptr(cli.StringFlag, payload(f)).EnvVars) == 1 && ptr(cli.StringFlag, payload(f)).EnvVars[0] == env
 macro StrFlagNoEnv(f cli.Flag, name string) bool := typeis(f, "*cli.StringFlag") && payload(f) != 0 && ptr(cli.StringFlag, payload(f)).Name == name && len(ptr(cli.StringFlag, payload(f)).EnvVars) == 0
+macro StrAlias(f cli.Flag, alias string) bool := typeis(f, "*cli.StringFlag") && len(ptr(cli.StringFlag, payload(f)).Aliases) == 1 && ptr(cli.StringFlag, payload(f)).Aliases[0] == alias
+macro BoolAlias(f cli.Flag, alias string) bool := typeis(f, "*cli.BoolFlag") && len(ptr(cli.BoolFlag, payload(f)).Aliases) == 1 && ptr(cli.BoolFlag, payload(f)).Aliases[0] == alias
 macro BoolFlagNoEnv(f cli.Flag, name string) bool := typeis(f, "*cli.BoolFlag") && payload(f) != 0 && ptr(cli.BoolFlag, payload(f)).Name == name && !ptr(cli.BoolFlag, payload(f)).Value && len(ptr(cli.BoolFlag, payload(f)).EnvVars) == 0
 
 func GetApp returns (a)
@@ -37,5 +39,9 @@ func GetApp returns (a)
     assert @date-format [C16] StrFlagIs(a.Flags[6], "date-format", "2006/01/02", "HR_DATE_FORMAT")
     assert @maxdepth [C16 C11] typeis(a.Flags[7], "*cli.IntFlag") && ptr(cli.IntFlag, payload(a.Flags[7])).Name == "maxdepth" && ptr(cli.IntFlag, payload(a.Flags[7])).Value == 10 && len(ptr(cli.IntFlag, payload(a.Flags[7])).EnvVars) == 1 && ptr(cli.IntFlag, payload(a.Flags[7])).EnvVars[0] == "HR_MAXDEPTH"
     assert @switches [C16] BoolFlagNoEnv(a.Flags[8], "no-color") && BoolFlagNoEnv(a.Flags[9], "no-database")
+    // the documented short forms: -b -e -d -l -c
+    assert @short-forms [C16] StrAlias(a.Flags[0], "b") && StrAlias(a.Flags[1], "e") && StrAlias(a.Flags[3], "d") && StrAlias(a.Flags[4], "l") && StrAlias(a.Flags[5], "c")
+    // the default configuration file is $HOME/.hranoprovod/config ("" when the user is unknown)
+    assert @default-config-path [C16] ptr(cli.StringFlag, payload(a.Flags[5])).Value == (if UserKnown() then HomeDirOf() + "/.hranoprovod/config" else "")
   }
 @*/
